@@ -94,7 +94,7 @@ def get_use_tree(
                     rename_map={**use_dict_mod.rename_map, **merged_rename},
                 )
             # Skip if we have already visited module with the same only list
-            if old_len == len(use_dict_mod.only_list):
+            if old_len == len(use_dict[use_stmnt.mod_name].only_list):
                 continue
         else:
             if type(use_stmnt) is Use:
